@@ -211,6 +211,19 @@ class Seams:
         real_open = builtins.open
 
         def sim_open(file, mode="r", *a, **kw):
+            if isinstance(file, int):
+                # a file object made from a descriptor (os.fdopen): the descriptor of a cache file keeps its seams
+                if file not in S.fds:
+                    return real_open(file, mode, *a, **kw)
+                nm = S.fds[file]
+                if any(c in mode for c in "wax+"):
+                    S.stats["open_w"] += 1
+                    S.park("open_w", f=nm, mode=mode)
+                    f = real_open(file, mode if "b" in mode else mode + "b", *a, **{k: v for k, v in kw.items() if k not in ("encoding", "newline", "errors")})
+                    return TornWriter(S, f, nm, binary="b" in mode)
+                S.stats["open_r"] += 1
+                S.park("open_r", f=nm)
+                return real_open(file, mode, *a, **kw)
             if not S.inside(file):
                 return real_open(file, mode, *a, **kw)
             nm = S.name(file)
